@@ -194,6 +194,29 @@ FIRST = {
     "C19-16": ("missed", "print_line() only appeared without arguments. Added its one- and two-argument forms to the function zoo."),
     "C20-15": ("missed", "header cells were clean and filters went by position. Added header cells that need cleaning and filters by header name."),
     "C20-16": ("missed", "a csvpath held at most one reference per datum. Added two keys of one tracked variable, the whole variable, and the same header of two members."),
+    # ---- round 9 (first encounter measured with the checks as committed before the round: /verif 9467733) ----
+    "C04-17": ("missed", "fail_and_stop() only appeared at the top level or on the right of '->'. Added family nested_fas_and (a stopper as an argument of and())."),
+    "C04-18": ("missed", "fail_all() only appeared in by-line runs. Added family fail_all_first (first member of a next_paths() run, members after it)."),
+    "C05-17": ("caught", ""),
+    "C05-18": ("missed", "the policy was always in place before the instance was created. Added: created under a policy with raise, narrowed on the instance's Config afterwards."),
+    "C07-17": ("caught", ""),
+    "C07-18": ("caught", ""),
+    "C08-17": ("missed", "the named file never changed during a run. Added: registered anew while the serial generator run is suspended."),
+    "C08-18": ("caught", ""),
+    "C09-17": ("caught", ""),
+    "C09-18": ("missed", "no member carried files-mode. Added (C09, C18, C19)."),
+    "C10-17": ("caught (the simulated clock stands still by default)", ""),
+    "C10-18": ("missed", "clock values were whole seconds. Added sub-second starts and a +0.6 s step."),
+    "C11-17": ("missed", "add_named_files_from_dir() was never driven. Added, over directories in which two files share a stem."),
+    "C11-18": ("missed", "removes never failed. Added removes that die part-way (a failing rmtree has already deleted one file) and are retried."),
+    "C12-17": ("missed", "config.ini named the directories without a trailing separator. Added the trailing '/' variant."),
+    "C12-18": ("missed", "same as C11-18, for remove_named_paths()."),
+    "C18-17": ("missed", "no member carried files-mode. Added."),
+    "C18-18": ("missed", "the projection abort was serial-only (in a group the narrowed line leaks to other members). Added the one-member collecting breadth-first run."),
+    "C19-17": ("missed", "no job carried files-mode. Added."),
+    "C19-18": ("missed by C19 (its twins are runs of the same kind), caught by C08 at first contact", "managed-vs-stand-alone is C08's comparison; rechecked with ./check C08 (seeded/C19-18/check_with)."),
+    "C20-17": ("missed", "results references always carried a date prefix. Added the bare form $g.results.:last.<id> (C10, C20)."),
+    "C20-18": ("missed", "referenced members always had an identity. Added members known only by position, referenced by index."),
 }
 
 
